@@ -71,6 +71,8 @@ def _intrinsic(sy):
     s = sy.t if isinstance(sy, _lin.S) else sy
     if isinstance(s, tuple) and len(s) == 3 and s[0] == "call" and s[2] == "p":
         out.append(Lin.sym(s) - 3)
+    if isinstance(s, tuple) and len(s) == 3 and s[0] in ("call", "attr") and s[2] == "order":
+        out.append(Lin.sym(s) - 2)          # A5: declared group orders are >= 2
     return out
 
 
@@ -112,6 +114,7 @@ class World(object):
         it.global_writers = self.lite.global_writers
         it.infeasible = INFEASIBLE
         it.class_invariants["baselen"] = _curve_invariant("baselen", only_cls="Curve")
+        it.class_invariants["order"] = _curve_invariant("order", only_cls="Curve")
         it.class_invariants["verifying_key_length"] = _curve_invariant("verifying_key_length")
         it.class_invariants["signature_length"] = _curve_invariant("signature_length")
         return it
